@@ -514,6 +514,12 @@ def gen_config(rng, profile='C01'):
             omit += ['Tdown4']
     cfg['omit'] = omit
     cfg['freeze'] = g.weighted([('freeze_data', 3), ('load_data', 1)])
+    # inputs supplied only after the caller has looked at their default
+    cfg['late_inputs'] = (g.subset(
+        ['Kdown3', 'alpha', 'dtalpha', 'betaup3', 'dtbetaup3', 'rho0',
+         'press', 'eps', 'Tdown4', 'gammadown3'], 0.1, 0.4)
+        if cfg['freeze'] == 'freeze_data' and g.chance(
+            {'C03': 0.3}.get(profile, 0.12)) else [])
     cfg['peek'] = (g.subset(['alpha', 'gxx', 'gammadown3', 'Kdown3', 'kxx',
                              'betaup3', 'betax', 'Tdown4', 'rho0', 'dtalpha'],
                             0.1, 0.6) if g.chance(0.3) else [])
@@ -662,13 +668,35 @@ class World:
         if cfg['freeze'] == 'load_data':
             rel.load_data({k: [None, v] for k, v in arrays.items()}, 1)
         else:
+            late = [k for k in cfg.get('late_inputs', []) if k in arrays] \
+                if knobs else []
             for k, v in arrays.items():
-                rel.data[k] = v
+                if k not in late:
+                    rel.data[k] = v
             # a user may look at inputs before freezing them
             for k in cfg.get('peek', []):
                 if k in rel.data:
                     rel[k]
             rel.freeze_data()
+            # ... or notice that an input is still missing: look at it (aurel
+            # works out its default), then supply it and freeze again.  Only
+            # where working out the default caches nothing but that key
+            # (anything else would be the caller's own stale state).
+            self.late_done = []
+            for k in late:
+                before = set(rel.data)
+                try:
+                    rel[k]
+                except Exception:  # noqa: BLE001
+                    pass
+                extra = set(rel.data) - before - {k}
+                for x in extra:            # undo: not a legitimate variant
+                    del rel.data[x]
+                    rel.last_accessed.pop(x, None)
+                if not extra:
+                    self.late_done.append(k)
+                rel.data[k] = arrays[k]
+                rel.freeze_data()
         return rel, arrays
 
     # deterministic argument fields for helper ops
@@ -913,6 +941,9 @@ class Engine:
         m = rel._m
         if cfg['omit']:
             self.probe('inputs_omitted_defaults_in_play')
+        if getattr(self.world, 'late_done', None):
+            self.fault('input_supplied_after_its_default_was_computed',
+                       len(self.world.late_done))
         for opi, op in enumerate(self.run['ops']):
             if stop_at_first and self._stop():
                 break
